@@ -209,6 +209,11 @@ impl Dag {
         self.cycle_state = CycleState::No;
     }
 
+    #[cfg(pnordahl_monorail_verif)]
+    pub(crate) fn verif_adj_list(&self) -> &Vec<Vec<usize>> {
+        &self.adj_list
+    }
+
     // Render the graph as a .dot file for use with graphviz, etc.
     pub(crate) fn render_dotfile(&self, p: &std::path::Path) -> Result<(), GraphError> {
         let mut f = std::fs::OpenOptions::new()
